@@ -202,7 +202,7 @@ def run(ctx):
     corpus_futs = [corpus_pool.submit(corpus_chunk, ch) for ch in chunks if ch]
 
     # ---- (1) generated modules: direct oracles
-    n = 448 if ctx.quick else 4200
+    n = 448 if ctx.quick else 2400
     shards = 8 if ctx.quick else 14
     rows, hangs = gen_shards(ctx, binp, n, shards, thorough)
     cases = [r for r in rows if "id" in r]
